@@ -120,6 +120,18 @@ NOTES = {
     "C16-b": ("64 process-wide error slots handed out round-robin", "first run: only the inventory obligation broke, no failing input; added schedules with 70 and 140 live threads - now caught with an input"),
     "C17-b": ("thread-local name scratch buffer not cleared when replace_raw fails", "caught at once (by the families added for C17-a)"),
     "C18-b": ("every pointer target validated recursively: 2^depth steps", "caught at once"),
+    # third round: the agents were told what the differential suite generates and asked for inputs it would plausibly not generate
+    "C02-c": ("check_compressed_name compares the pointer target in 16 bits: a backward pointer from a name starting at offset >= 65536 is refused", "MISSED at first (no packet above 64 KiB in the quick tier); added records placed at 65535..65548 and data lengths of 65526..65535 to the packet families - now caught"),
+    "C03-c": ("skip_rdata adds header size and data length in u16: a record with RDLENGTH 65526..65535 derails the walk (panic in debug, wrap in release)", "MISSED at first; jumbo-rdlen packets added, and C01 C02 C03 C05 C10 C18 now also run the optimised build of the harness - now caught in both builds"),
+    "C05-c": ("'null MX' fast path in uncompress_rdata taken when the last data byte is 0: an exchange ending in a pointer to offset 256, 512 ...", "MISSED at first; added packets with a label starting at offset 255 / 256 / 257 / 512 / 768 named by a pointer from every kind of name - now caught"),
+    "C06-c": ("hand-rolled case folding treats '[' and '{' as one letter", "MISSED at first; added names differing only in a non-letter byte pair 0x20 apart (@/`, [/{, ]/}, ^/~, 0xC1/0xE1) - now caught"),
+    "C07-c": ("SuffixDict guard off by one at offset 16384 (as C06-a) reached through the renamer", "caught at once (pointer-limit family)"),
+    "C08-c": ("delete() takes any record whose type field reads 41 for OPT: deleting a question with QTYPE 41 wipes the EDNS summary", "MISSED at first; added questions whose QTYPE is the number of a special record type (41, 6, 15, 2, 39, 0, 65535), deleted and re-inserted, with and without a real OPT - now caught"),
+    "C09-c": ("set_raw_name no longer clears the question cache (as C08-b)", "caught at once"),
+    "C10-c": ("RR::len() as u16 in the size test of insert_rr: a record of 65536+ bytes is accepted", "MISSED at first (records were only ever synthesised from text); added the harness/model operation IR (RR::new with any data length, then insert_rr) and data lengths around 8192 and 65520..65535 - now caught"),
+    "C11-c": ("resize_rr no longer clears the question cache: a question deleted from an already decompressed object is still reported by the getters", "MISSED at first; the question getters are now called before and after the question is deleted - now caught"),
+    "C13-c": ("TXT length limit derived from the owner name length: 3571..3825 bytes of text refused when the owner has 234+ bytes", "MISSED at first; added the grid owner-name length x data length for every type - now caught"),
+    "C17-c": ("compress() output built in a thread-local scratch buffer that is not cleared above 64 KiB of capacity", "first run: only the regenerated inventory obligation broke; added small operations right after 33 .. 65 KB ones - now caught with an input"),
 }
 
 
